@@ -3,6 +3,7 @@ CONSTANTS
   K = @K@
   Regions = {"type", "vmaj", "vmin", "lenhi", "lenlo", "lenover", "first", "mid", "macstart", "pad", "last"}
   InjKinds = {"garbage", "plainalert", "empty", "ccs", "hsfinished"}
+  PadAuth = @PADAUTH@
 INIT GInit
 NEXT GNext
 INVARIANTS Emit
